@@ -148,12 +148,14 @@ struct HistRun
   long rewinds = 0, eofs = 0;
 };
 
-// one LmToProjData run for one frame into memory
+// one LmToProjData run for one frame into memory; `reuse`: the converter object of an earlier run is used again
 std::map<BinKey, float>
-histogram_in_memory(const World& w, double start, double end, const HistOpts& o, HistRun& hr, shared_ptr<ProjDataInfo>* out_pdi = nullptr)
+histogram_in_memory(const World& w, double start, double end, const HistOpts& o, HistRun& hr, shared_ptr<ProjDataInfo>* out_pdi = nullptr,
+                    Lm2P* reuse = nullptr)
 {
   shared_ptr<lm::SimListModeData> src(new lm::SimListModeData(w.scanner_pdi, w.script, w.has_delayeds, o.eof_after));
-  Lm2P conv;
+  Lm2P fresh_conv;
+  Lm2P& conv = reuse ? *reuse : fresh_conv;
   conv.set_input_data(src);
   conv.set_template_proj_data_info_sptr(w.templ);
   conv.set_output_filename_prefix("unused_in_memory");
@@ -165,6 +167,8 @@ histogram_in_memory(const World& w, double start, double end, const HistOpts& o,
   conv.set_num_events_to_store(o.num_events_to_store);
   if (o.num_events_to_store <= 0)
     conv.set_time_frame_definitions(TimeFrameDefinitions(std::vector<std::pair<double, double>>(1, std::make_pair(start, end))));
+  else
+    conv.set_time_frame_definitions(TimeFrameDefinitions()); // a cut-off request carries no frames (matters when the object is re-used)
   if (conv.set_up() != Succeeded::yes)
     throw std::runtime_error("harness: LmToProjData::set_up failed");
   shared_ptr<ProjData> out(new ProjDataInMemory(src->get_exam_info_sptr(), conv.get_template_proj_data_info_sptr()));
@@ -199,6 +203,39 @@ run_histogram(const Plan& p, sim::Result& res)
     histogram_in_memory(w, 0, 1, o0, hr, &out_pdi);
   }
   const int nseg = out_pdi->get_num_segments(), ntof = out_pdi->get_num_tof_poss();
+  if (cls == "reuse")
+    {
+      // ONE converter object serves several requests in a row (an interactive session): frames, other batch sizes, other
+      // prompt/delayed settings, and a cut-off after frames.  Every result has to be what a fresh object gives: the count.
+      Lm2P conv;
+      const int nreq = (int)r.range(2, 4);
+      for (int q = 0; q < nreq; ++q)
+        {
+          HistOpts oq = o;
+          HistRun hq;
+          hq.segs_in_mem = r.chance(0.5) ? -1 : (int)r.range(1, nseg);
+          hq.tofs_in_mem = r.chance(0.5) ? -1 : (int)r.range(1, ntof);
+          oq.store_prompts = r.chance(0.85);
+          oq.store_delayeds = r.chance(0.7) || !oq.store_prompts;
+          double s0 = 0, e0 = w.t_end;
+          if (r.chance(0.35))
+            oq.num_events_to_store = r.range(1, 60);
+          else if (!w.mark_times.empty())
+            {
+              s0 = r.chance(0.5) ? 0. : w.mark_times[r.below(w.mark_times.size())];
+              e0 = r.chance(0.5) ? w.t_end : w.mark_times[r.below(w.mark_times.size())];
+              if (e0 <= s0 + 0.02)
+                e0 = w.t_end;
+            }
+          std::map<BinKey, float> want = expected_histogram(w, *out_pdi, s0, e0, oq);
+          std::map<BinKey, float> got = histogram_in_memory(w, s0, e0, oq, hq, nullptr, &conv);
+          sim::logf("reuse request %d cutoff %ld frame [%g,%g) bins %zu", q, oq.num_events_to_store, s0, e0, got.size());
+          compare_hist(got, want, q == 0 ? "reuse:first_request" : (oq.num_events_to_store > 0 ? "reuse:cutoff_after_other_requests" : "reuse:frame_after_other_requests"),
+                       "converter object used for several requests in a row");
+          sim::probe(oq.num_events_to_store > 0 ? "reuse_cutoff_request" : "reuse_frame_request");
+        }
+      return;
+    }
   if (cls == "cutoff")
     {
       o.num_events_to_store = p.c("cutoff", 10);
@@ -725,8 +762,8 @@ gen(uint64_t seed, const std::string& tier, long idx)
     p.cfg["pct_d"] = r.range(2, 4);
   (void)idx;
 #else
-  static const char* cls[] = { "histogram", "histogram", "eof", "cutoff", "lm_gradient", "lm_gradient", "lm_cache_write_error" };
-  o.kind = cls[idx % 7];
+  static const char* cls[] = { "histogram", "histogram", "eof", "cutoff", "lm_gradient", "lm_gradient", "lm_cache_write_error", "reuse" };
+  o.kind = cls[idx % 8];
   for (int j = 0; j < 3; ++j)
     o.a.push_back((long)r.below(1000));
   p.cfg["span"] = r.chance(0.3) ? 3 : 1;
